@@ -52,6 +52,34 @@ fn raw_scenario() -> BoxedStrategy<Script> {
         .boxed()
 }
 
+/// two writers that both need a bucket nobody has allocated yet, released together right before the CAS
+fn alloc_race_threads(capacity: u32, over: u16, tail: u16) -> Vec<Vec<SOp>> {
+    // bucket k covers [32*(2^k-1), 32*(2^(k+1)-1)); with capacity <= 32 only bucket 0 exists, else buckets 0..1
+    let (start, len) = if capacity <= 32 { (0u32, 32u32) } else { (32u32, 64u32) };
+    // fill up to a position that does not trigger the eager allocation of the next bucket
+    let fill = (start + len - len / 8 - 4) as u16;
+    // each racing extend starts inside the current bucket or already in the next one and ends in the next one
+    let n = (len / 8) as u16 + 8 + over;
+    let a = vec![SOp::GateCas { len: len * 2, parties: 2 }, SOp::Extend { n: fill }, SOp::SetFlag { k: 0 }, SOp::Extend { n }, SOp::SleepMs { ms: 3 }, SOp::Push { n: tail }];
+    let b = vec![SOp::WaitFlag { k: 0 }, SOp::Extend { n }, SOp::SleepMs { ms: 3 }, SOp::Scan { start: 0 }];
+    vec![a, b]
+}
+
+fn alloc_race_scenario() -> BoxedStrategy<Script> {
+    // two writers are made to allocate the same bucket at the same time (rendezvous right before the
+    // bucket CAS, relaxed polling): the loser then works inside the winner's bucket
+    (proptest::sample::select(vec![0u32, 1, 33, 100]), 1u8..=2, 0u16..8, any::<bool>(), 0u16..30)
+        .prop_map(|(capacity, columns, over, reader, tail)| {
+            let (start, len) = if capacity <= 32 { (0u32, 32u32) } else { (32u32, 64u32) };
+            let mut threads = alloc_race_threads(capacity, over, tail);
+            if reader {
+                threads.push(vec![SOp::WaitFlag { k: 0 }, SOp::SleepMs { ms: 1 }, SOp::GetRange { from: start + len - 6, to: start + len + 12 }, SOp::Scan { start: 0 }]);
+            }
+            Script { nucleo: false, capacity, columns, pool_threads: 1, threads }
+        })
+        .boxed()
+}
+
 fn nucleo_scenario() -> BoxedStrategy<Script> {
     // thread 0 owns the matcher (ticks, reads every matched item, edits the pattern, restarts);
     // writer threads inject, one of them held in flight after allocating a bucket
@@ -189,6 +217,24 @@ impl Check for C09 {
         }
     }
     fn templates(&self, _tier: Tier) -> Vec<Script> {
+        let mut v = self.fixed_templates();
+        for capacity in [0u32, 1, 33, 100] {
+            for over in [0u16, 3] {
+                v.push(Script { nucleo: false, capacity, columns: 1, pool_threads: 1, threads: alloc_race_threads(capacity, over, 0) });
+            }
+        }
+        v
+    }
+    fn strategy(&self, _tier: Tier) -> BoxedStrategy<Script> {
+        prop_oneof![45 => raw_scenario(), 20 => alloc_race_scenario(), 35 => nucleo_scenario()].boxed()
+    }
+    fn run(&self, sc: &Script) -> Outcome {
+        self.run_script(sc)
+    }
+}
+
+impl C09 {
+    fn fixed_templates(&self) -> Vec<Script> {
         vec![
             // writer held at the first slot of the bucket it just allocated; reader gets and scans across it
             Script { nucleo: false, capacity: 1, columns: 1, pool_threads: 1, threads: vec![vec![SOp::ExtendHeld { n: 40, at: 32, set: 0, wait: 1 }], vec![SOp::WaitFlag { k: 0 }, SOp::GetRange { from: 30, to: 40 }, SOp::Scan { start: 0 }, SOp::SetFlag { k: 1 }]] },
@@ -198,10 +244,7 @@ impl Check for C09 {
             Script { nucleo: true, capacity: 0, columns: 1, pool_threads: 3, threads: vec![vec![SOp::Restart { clear: true }, SOp::SetFlag { k: 5 }, SOp::Reparse { text: 0 }, SOp::WaitFlag { k: 0 }, SOp::Tick { timeout: 10 }, SOp::Reparse { text: 1 }, SOp::Tick { timeout: 10 }, SOp::SetFlag { k: 1 }, SOp::SleepMs { ms: 5 }, SOp::Tick { timeout: 10 }], vec![SOp::WaitFlag { k: 5 }, SOp::ExtendHeld { n: 2030, at: 2016, set: 0, wait: 1 }], vec![SOp::WaitFlag { k: 0 }, SOp::Push { n: 30 }]] },
         ]
     }
-    fn strategy(&self, _tier: Tier) -> BoxedStrategy<Script> {
-        prop_oneof![60 => raw_scenario(), 40 => nucleo_scenario()].boxed()
-    }
-    fn run(&self, sc: &Script) -> Outcome {
+    fn run_script(&self, sc: &Script) -> Outcome {
         let mut out = Outcome::default();
         let bin = vtsan_bin();
         if !bin.exists() {
@@ -244,6 +287,10 @@ impl Check for C09 {
         let reader_ops = sc.threads.iter().flatten().any(|o| matches!(o, SOp::Get { .. } | SOp::GetRange { .. } | SOp::Scan { .. } | SOp::Tick { .. }));
         out.nontrivial = held && reader_ops && sc.threads.len() >= 2;
         out.label(if sc.nucleo { "nucleo-script" } else { "raw-vector-script" });
+        if sc.threads.iter().flatten().any(|o| matches!(o, SOp::GateCas { .. })) {
+            out.label("two-writers-racing-to-install-a-bucket");
+            out.nontrivial = true;
+        }
         if sc.threads.iter().flatten().any(|o| matches!(o, SOp::Restart { .. })) {
             out.label("restart");
         }
